@@ -1,23 +1,32 @@
 /-
   C04 — Every SMB1 command structure round-trips all of its fields through the wire.
   Property theorems only.  The per-command facts are decided by the kernel on the marshal and
-  unmarshal programs regenerated from /repo on this run.
+  unmarshal programs regenerated from /repo on this run; the generic theorem `mirror_roundtrip`
+  turns the decided `Mirror` facts into a statement about all field values.
+  Helper lemmas: `Manticore/Lemmas/Smb{Basics,Marshal,Unmarshal,Mirror,Std}.lean`.
 -/
 import Manticore.Model.SmbCmd
 import Manticore.Model.SmbCodecs
 import Manticore.Gen.SmbCommands
+import Manticore.Lemmas.SmbMirror
+import Manticore.Lemmas.SmbStd
+import Manticore.Lemmas.SmbLocality
 namespace Manticore.C04
 open Manticore Manticore.SmbIR Manticore.Gen.SmbCommands
 
-/-- the commands whose two programs are NOT established to mirror each other: exactly these 31.
-    For the other 84 structures `Mirror` holds: same slots, same order, same widths, same byte order and
-    same length dependencies in Marshal and Unmarshal.  Swapping two reads, changing a width or an
-    endianness on one side only, or dropping a field in any of the 84 makes this fail to check. -/
+/-- the commands whose two programs are NOT established to mirror each other: exactly these 32.
+    For the other 83 structures `Mirror` holds: same slots, same order, same widths, same byte order and
+    same length dependencies in Marshal and Unmarshal, no field changed after it was emitted, offsets
+    reset between the blocks, lengths read before the buffers they describe, guards no larger than the
+    reads they protect, every declared field on the wire.  Swapping two reads, changing a width or an
+    endianness on one side only, dropping a field or a `offset = 0` in any of the 83 makes this fail
+    to check. -/
 theorem non_mirror_commands :
     (commands.filter (fun c => !Mirror c)).map (·.name) =
       ["CreateTemporaryResponse", "FindCloseResponse", "FindResponse", "FindUniqueResponse", "LockAndReadResponse",
        "LockingAndxRequest", "NegotiateRequest", "NegotiateResponse", "NtCreateAndxRequest", "NtCreateAndxResponse",
-       "OpenAndxRequest", "OpenAndxResponse", "QueryInformation2Response", "ReadAndxRequest", "ReadAndxResponse",
+       "OpenAndxRequest", "OpenAndxResponse", "QueryInformation2Response", "QueryInformationResponse",
+       "ReadAndxRequest", "ReadAndxResponse",
        "ReadRawRequest", "ReadResponse", "RenameRequest", "SessionSetupAndxRequest", "SessionSetupAndxResponse",
        "TransactionRequest", "TreeConnectAndxRequest", "TreeConnectAndxResponse", "TreeConnectRequest",
        "WriteAndCloseRequest", "WriteAndUnlockRequest", "WriteAndxRequest", "WriteAndxResponse", "WriteMpxRequest",
@@ -42,5 +51,166 @@ theorem known_roundtrip_findings :
        (.andxNotConsumed, "WriteAndxResponse"), (.conditionalField, "WriteRawRequest")] := by decide +kernel
 
 theorem command_count : commands.length = 115 := by decide +kernel
+
+/-! ## the generic round trip -/
+
+/-- **Layer 1/2 — Marshal is the layout.**  For a marshal program of the straight-line fragment
+    (`layoutM` accepts it) that does not change a field after emitting it, the two raw streams `runM`
+    builds are exactly the `layoutBytes` of the layout's parameter and data slots, evaluated on the
+    field values Marshal leaves behind (`s.env`); nothing is put ahead of the parameter block. -/
+theorem marshal_is_layout {C : Codecs} {T : String → Prop} (hC : LawfulCodecs C T) (c : Cmd) (m : List Slot)
+    (hl : layoutM c.marshal = some m) (hst : stableM c.marshal = true) (hT : ∀ t ∈ c.subTypes, T t)
+    (env : Env) (s : MState) (hrun : runM C c env = .ok s) (hfit : intsFit s.env c.marshal = true) :
+    s.P = layoutBytes C s.env (m.filter (·.blk == .P)) ∧ s.D = layoutBytes C s.env (m.filter (·.blk == .D)) ∧
+      s.head = [] := by
+  obtain ⟨hP, hD, hH, _⟩ := runMStmts_layout hC c.isAndX c.marshal m { env := env } s hl hst
+    (fun b f t h => hT t (mem_subTypes h)) hrun hfit
+  exact ⟨by simpa using hP, by simpa using hD, hH⟩
+
+/-- **Layer 3 — Unmarshal reads the layout back.**  An unmarshal program of the straight-line
+    fragment that keeps the offset discipline (`okU`), started at offset 0 on two streams that are the
+    `layoutBytes` of its own layout `u` for field values `env'` (which satisfy the program's relations
+    and fit the slots), whatever lies behind the streams in their backing arrays (`Pext`, `Dext`) and
+    whatever the fields held before (`env0`), returns an environment; unless both tested blocks are
+    empty, every field of the layout holds the value `env'` gives it. -/
+theorem unmarshal_reads_layout {C : Codecs} {T : String → Prop} (hC : LawfulCodecs C T) (c : Cmd) (u : List Slot)
+    (hl : layoutU c.unmarshal = some u)
+    (hok : okU (!(u.filter (·.blk == .P)).isEmpty) (!(u.filter (·.blk == .D)).isEmpty) {} [] c.unmarshal = true)
+    (hlast : ∀ b, restOnlyLast (u.filter (·.blk == b)) = true)
+    (env' env0 : Env) (hrel : relationsHold C env' 0 c.unmarshal = true) (hfit : ∀ sl ∈ u, SlotFit C T env' sl)
+    (wc : Nat) (Pext Dext : Bytes) :
+    ∃ d, runU C c env0 wc (layoutBytes C env' (u.filter (·.blk == .P))) (layoutBytes C env' (u.filter (·.blk == .D)))
+          Pext Dext = .ok d ∧
+      (layoutBytes C env' (u.filter (·.blk == .P)) ≠ [] ∨ layoutBytes C env' (u.filter (·.blk == .D)) ≠ [] →
+        ∀ f ∈ u.map Slot.field, d.get f = env'.get f) := by
+  have hinv : Inv C env' {} (layoutBytes C env' (u.filter (·.blk == .P))) (layoutBytes C env' (u.filter (·.blk == .D))) 0 u :=
+    ⟨fun b _ => (by cases b <;> exact Or.inr rfl), fun b hb => (by cases hb), fun _ => rfl⟩
+  obtain ⟨d, hd, hag⟩ := runU_go_layout hC env' _ _ c.unmarshal u {} []
+    { P := layoutBytes C env' (u.filter (·.blk == .P)), D := layoutBytes C env' (u.filter (·.blk == .D)),
+      Pext := Pext, Dext := Dext, wordCount := wc, env := env0 } 0 hl hok hrel hfit hlast hinv (fun f hf => by cases hf)
+  refine ⟨d, hd, fun hne f hf => hag ?_ f (Or.inr hf)⟩
+  rcases hne with h | h
+  · refine Or.inl ⟨?_, h⟩
+    have : u.filter (·.blk == .P) ≠ [] := by intro e; apply h; rw [e]; rfl
+    simpa using this
+  · refine Or.inr ⟨?_, h⟩
+    have : u.filter (·.blk == .D) ≠ [] := by intro e; apply h; rw [e]; rfl
+    simpa using this
+
+/-- **C04, generic round trip.**  For every command whose regenerated programs satisfy the
+    kernel-decidable predicate `Mirror`, every codec table satisfying `LawfulCodecs` on the nested
+    types the command uses, every internally consistent field assignment `env`, and every initial
+    state `env0` of the receiving structure: `Marshal` succeeds, `Unmarshal` of the bytes succeeds, and
+    every declared field comes back with the value `Marshal` left in it (`SetBufferFormat`, nested
+    `Marshal` normalise the sender's fields; `env'` is the sender after the call).
+    Hypotheses on the presence/kind of fields are not needed: `consistent` already implies that
+    `Marshal` ran, and `Unmarshal` assigns every declared field. -/
+theorem mirror_roundtrip {C : Codecs} {T : String → Prop} (hC : LawfulCodecs C T) (c : Cmd)
+    (hm : Mirror c = true) (hT : ∀ t ∈ c.subTypes, T t) (env0 env : Env) (hc : consistent C c env = true) :
+    ∃ bs env' d, encodeCmd C c env = .ok bs ∧ envAfterMarshal C c env = .ok env' ∧
+      decodeCmd C c env0 bs = .ok d ∧ ∀ f ∈ c.fields.map (·.1), d.get f = env'.get f :=
+  mirror_roundtrip_core hC c hm hT env0 env hc
+
+/-- **The standard codecs** (the C06 models behind `Manticore.SmbCodecs.std`) **satisfy the codec laws**
+    on `SmbCodecs.lawfulTypes`: every nested type except `SMB_NMPIPE_STATUS` (its decoder rejects
+    trailing bytes: finding `nmpipe_trailing`), `Dialects` (decodes to the end of its input) and
+    `SMB_DIRECTORY_INFORMATION` (not attempted).  None of the three occurs in a `Mirror` command. -/
+theorem std_lawful : LawfulCodecs Manticore.SmbCodecs.std (· ∈ Manticore.SmbCodecs.lawfulTypes) :=
+  Manticore.SmbStd.std_lawful_core
+
+/-- every nested type a `Mirror` command marshals is one of the lawful ones (decided on the
+    regenerated programs) -/
+theorem mirror_types_lawful :
+    commands.all (fun c => !Mirror c || c.subTypes.all (Manticore.SmbCodecs.lawfulTypes.contains ·)) = true := by
+  decide +kernel
+
+/-- **C04 for the regenerated commands.**  Each of the 83 `Mirror` command structures of this tree
+    round-trips every declared field, for all internally consistent field values and all initial
+    states of the receiver, with the C06 models as nested codecs. -/
+theorem smb_roundtrip (c : Cmd) (hmem : c ∈ commands) (hm : Mirror c = true) (env0 env : Env)
+    (hc : consistent Manticore.SmbCodecs.std c env = true) :
+    ∃ bs env' d, encodeCmd Manticore.SmbCodecs.std c env = .ok bs ∧
+      envAfterMarshal Manticore.SmbCodecs.std c env = .ok env' ∧
+      decodeCmd Manticore.SmbCodecs.std c env0 bs = .ok d ∧ ∀ f ∈ c.fields.map (·.1), d.get f = env'.get f := by
+  refine mirror_roundtrip std_lawful c hm ?_ env0 env hc
+  intro t ht
+  have h := List.all_eq_true.mp mirror_types_lawful c hmem
+  rw [hm] at h
+  simp only [Bool.not_true, Bool.false_or, List.all_eq_true, List.contains_iff_mem] at h
+  exact h t ht
+
+/-! ## re-encoding -/
+
+/-- **C04, re-encoding (generic).**  Under the hypotheses of `mirror_roundtrip`, for a marshal program
+    of the `Reencodable` shape (each `SetBufferFormat` immediately before the `Marshal` of the same
+    field, no `c.F = len(c.G)`, only declared fields emitted) and codecs whose `Marshal` keeps the
+    buffer format just set (`LawfulFmt`): marshalling the decoded structure again yields the same bytes. -/
+theorem mirror_reencode {C : Codecs} {T F : String → Prop} (hC : LawfulCodecs C T) (hF : LawfulFmt C F) (c : Cmd)
+    (hm : Mirror c = true) (hre : Reencodable c = true) (hT : ∀ t ∈ c.subTypes, T t) (hFt : ∀ t ∈ c.fmtTypes, F t)
+    (env0 env : Env) (hc : consistent C c env = true) :
+    ∃ bs d, encodeCmd C c env = .ok bs ∧ decodeCmd C c env0 bs = .ok d ∧ encodeCmd C c d = .ok bs :=
+  mirror_reencode_core hC hF c hm hre hT hFt env0 env hc
+
+/-- `SMB_STRING.Marshal` keeps the buffer format `SetBufferFormat` has just set (the only nested type
+    a command sets a format on) -/
+theorem std_lawful_fmt : LawfulFmt Manticore.SmbCodecs.std (· = "SMB_STRING") :=
+  Manticore.SmbStd.std_lawful_fmt_core
+
+/-- every `Mirror` command of this tree has the `Reencodable` shape and sets buffer formats on
+    `SMB_STRING` fields only (decided on the regenerated programs) -/
+theorem mirror_reencodable :
+    commands.all (fun c => !Mirror c || (Reencodable c && c.fmtTypes.all (· == "SMB_STRING"))) = true := by
+  decide +kernel
+
+/-- **C04, re-encoding, for the regenerated commands**: for each of the 83 `Mirror` structures,
+    unmarshalling the bytes of a consistent structure and marshalling the result gives the same bytes. -/
+theorem smb_reencode (c : Cmd) (hmem : c ∈ commands) (hm : Mirror c = true) (env0 env : Env)
+    (hc : consistent Manticore.SmbCodecs.std c env = true) :
+    ∃ bs d, encodeCmd Manticore.SmbCodecs.std c env = .ok bs ∧ decodeCmd Manticore.SmbCodecs.std c env0 bs = .ok d ∧
+      encodeCmd Manticore.SmbCodecs.std c d = .ok bs := by
+  have h1 := List.all_eq_true.mp mirror_types_lawful c hmem
+  have h2 := List.all_eq_true.mp mirror_reencodable c hmem
+  rw [hm] at h1 h2
+  simp only [Bool.not_true, Bool.false_or, List.all_eq_true, List.contains_iff_mem, Bool.and_eq_true,
+    beq_iff_eq] at h1 h2
+  exact mirror_reencode std_lawful std_lawful_fmt c hm h2.1 h1 h2.2 env0 env hc
+
+/-! ## slot locality -/
+
+/-- **C04, slot locality.**  When `slotRange c f = some (lo, hi)` (straight-line marshal program,
+    exactly one statement touches `f`, namely the emission of a fixed-width parameter slot preceded by
+    fixed-width slots only), replacing the value of `f` by anything else for which `Marshal` still
+    succeeds changes no byte of the encoded command outside `[lo, hi)` and not its length.  Any codec
+    table; no consistency hypothesis. -/
+theorem slot_locality (C : Codecs) (c : Cmd) (f : String) (lo hi : Nat) (h : slotRange c f = some (lo, hi))
+    (env : Env) (v : Val) (a b : Bytes) (ha : encodeCmd C c env = .ok a) (hb : encodeCmd C c (env.set f v) = .ok b) :
+    a.length = b.length ∧ ∀ i, (i < lo ∨ hi ≤ i) → a[i]? = b[i]? :=
+  slot_locality_core C c f lo hi h env v a b ha hb
+
+/-- the theorem applies to 206 (command, field) pairs of this tree -/
+theorem slot_ranges_defined :
+    (commands.flatMap (fun c => (c.fields.map (·.1)).filterMap (fun f => slotRange c f))).length = 206 := by
+  decide +kernel
+
+/-! ### non-vacuity: a concrete command and concrete field values satisfy every hypothesis -/
+
+/-- `CloseRequest{FID: 0x1234, LastTimeModified: FILETIME{1, 2}}` -/
+def closeEnv : Env := [("FID", .n 0x1234), ("LastTimeModified", .t ([1, 2], []))]
+
+example : cmd_CloseRequest ∈ commands := by simp [commands, chunk0]
+example : Mirror cmd_CloseRequest = true := by decide
+example : consistent Manticore.SmbCodecs.std cmd_CloseRequest closeEnv = true := by
+  have hrun : runM Manticore.SmbCodecs.std cmd_CloseRequest closeEnv =
+      .ok { P := [0x34, 0x12, 1, 0, 0, 0, 2, 0, 0, 0], D := [], head := [], env := closeEnv } := by rfl
+  have htup : tupOk Manticore.SmbCodecs.std "FILETIME" ([1, 2], []) = true := by decide +kernel
+  unfold consistent
+  rw [hrun]
+  simp [intsFit, relationsHold, cmd_CloseRequest, closeEnv, Env.get, htup, wordCountOf, andxWords]
+example : encodeCmd Manticore.SmbCodecs.std cmd_CloseRequest closeEnv =
+    .ok [5, 0x34, 0x12, 1, 0, 0, 0, 2, 0, 0, 0, 0, 0] := by decide +kernel
+example : Reencodable cmd_CloseRequest = true := by decide
+example : slotRange cmd_CloseRequest "FID" = some (1, 3) := by decide
+example : encodeCmd Manticore.SmbCodecs.std cmd_CloseRequest (closeEnv.set "FID" (.n 0xFFFF)) =
+    .ok [5, 0xFF, 0xFF, 1, 0, 0, 0, 2, 0, 0, 0, 0, 0] := by decide +kernel
 
 end Manticore.C04
